@@ -14,6 +14,32 @@ def own_nodes(repo: Repo, f: Func):
             yield n
 
 
+# --------------------------------------------------------------------------- explaining variables
+def expand_locals(fn: ast.AST, e: ast.AST, depth: int = 4) -> str:
+    """text of `e` with every local that is assigned exactly once in `fn` (plain `x = <expr>`) replaced by its defining
+    expression - `root = find(d); use(root)` and `use(find(d))` read the same to a rule"""
+    import copy
+    single: Dict[str, ast.AST] = {}
+    counts: Dict[str, int] = {}
+    for n in ast.walk(fn):
+        if isinstance(n, ast.Name) and isinstance(n.ctx, (ast.Store, ast.Del)):
+            counts[n.id] = counts.get(n.id, 0) + 1
+    for n in ast.walk(fn):
+        if isinstance(n, ast.Assign) and len(n.targets) == 1 and isinstance(n.targets[0], ast.Name) and counts.get(n.targets[0].id) == 1:
+            single[n.targets[0].id] = n.value
+
+    class T(ast.NodeTransformer):
+        def __init__(self, d):
+            self.d = d
+
+        def visit_Name(self, n):
+            if isinstance(n.ctx, ast.Load) and n.id in single and self.d > 0:
+                return T(self.d - 1).visit(copy.deepcopy(single[n.id]))
+            return n
+
+    return ast.unparse(T(depth).visit(copy.deepcopy(e))).replace('"', "'")
+
+
 # --------------------------------------------------------------------------- unused loop variables (bugbear B007)
 def unused_loop_vars(ctx, quals: Iterable[str], why: str):
     """Every name unpacked by a for-loop / comprehension target in the given collector functions is used in the loop
